@@ -73,7 +73,7 @@ pub const NUMS: &[f64] = &[
 ];
 pub const STRS: &[&str] = &[
     "", "a", "hello world", "multi\nline", "ünï", "5", " padded ", "true", "it's", "(paren)", "a, b & c", "null", "1e3",
-    "x\ty", "mysterious", "say 5", ".", "-1", "ab1", "tab\there", "two\n\nblank", "ends in a break\n", "\n", "\n\nstarts with two", "dos\r\nbreak\r\n",
+    "x\ty", "mysterious", "say 5", ".", "-1", "ab1", "tab\there", "two\n\nblank", "ends in a break\n", "\n", "\n\nstarts with two", "dos\r\nbreak\r\n", "‘curly’ “quotes”", "esc\u{1b}[0m",
 ];
 pub const POETIC_WORDS: &[&str] = &[
     "a", "an", "the", "lovestruck", "ladykiller", "rock", "roll", "sweet", "desire", "fire", "ice", "cold", "heartbreaker",
@@ -167,6 +167,8 @@ impl<'t, 'a> SynGen<'t, 'a> {
         let n_links = if c.depth == 0 { 0 } else { self.t.weighted(&[100 - link_weight.min(90), link_weight, link_weight / 4]) };
         // now and then a long chain (17-40 links): beyond inline stacks and recursion shortcuts of 16
         let n_links = if n_links == 2 && self.t.chance(1, 12) { 17 + self.t.pick(24) } else { n_links };
+        // and very rarely a chain of several hundred links (chunked or iterative walks with a boundary)
+        let n_links = if n_links >= 17 && self.t.chance(1, 12) { 500 + self.t.pick(160) } else { n_links };
         let chosen: Vec<BinOp> = (0..n_links).map(|_| *self.t.choose(ops)).collect();
         // first operand: carries `lead`; followed by an operator, so a trailing call matters only for `and`
         let first_ctx = Ctx {
